@@ -10,8 +10,8 @@ package c08
 
 import (
 	"bytes"
-	stdjson "encoding/json"
 	"encoding/json"
+	stdjson "encoding/json"
 	"fmt"
 	"os"
 	"reflect"
@@ -276,13 +276,13 @@ func (r *runner) cycles(counted bool) {
 		I    interface{}
 	}
 	mk := map[string]func() interface{}{
-		"pointer-self": func() interface{} { n := &node{V: 1}; n.Next = n; return n },
-		"pointer-2":    func() interface{} { a, b := &node{V: 1}, &node{V: 2}; a.Next, b.Next = b, a; return a },
-		"map":          func() interface{} { m := map[string]interface{}{"a": 1}; m["self"] = m; return m },
-		"map-in-struct": func() interface{} { n := &node{M: map[string]interface{}{}}; n.M["n"] = n; return n },
-		"slice":        func() interface{} { s := []interface{}{1, nil}; s[1] = s; return s },
-		"slice-in-struct": func() interface{} { n := &node{S: []interface{}{nil}}; n.S[0] = n; return n },
-		"interface":    func() interface{} { n := &node{}; n.I = n; return n },
+		"pointer-self":        func() interface{} { n := &node{V: 1}; n.Next = n; return n },
+		"pointer-2":           func() interface{} { a, b := &node{V: 1}, &node{V: 2}; a.Next, b.Next = b, a; return a },
+		"map":                 func() interface{} { m := map[string]interface{}{"a": 1}; m["self"] = m; return m },
+		"map-in-struct":       func() interface{} { n := &node{M: map[string]interface{}{}}; n.M["n"] = n; return n },
+		"slice":               func() interface{} { s := []interface{}{1, nil}; s[1] = s; return s },
+		"slice-in-struct":     func() interface{} { n := &node{S: []interface{}{nil}}; n.S[0] = n; return n },
+		"interface":           func() interface{} { n := &node{}; n.I = n; return n },
 		"interface-via-slice": func() interface{} { n := &node{}; n.I = []interface{}{map[string]interface{}{"back": n}}; return n },
 	}
 	for name, f := range mk {
@@ -297,6 +297,83 @@ func (r *runner) cycles(counted bool) {
 				w.DivFine("cycle|panic:"+wk.PanicClass(rec)+"|"+name, "cycle|"+name+"|"+variant, counted, fmt.Sprint(rec), c)
 			case err == nil:
 				w.DivFine("cycle|no-error|"+name, "cycle|"+name+"|"+variant, counted, "a cyclic value was encoded without an error", c)
+			}
+		}
+	}
+}
+
+// afterFailure: an encode that FAILS while nested deep (a cycle, an error from a marshaler) must leave nothing behind:
+// the same nodes, repaired into an acyclic chain longer than the cycle-detection threshold (1000 frames), must
+// then encode exactly as encoding/json does - on every interpreter.
+type failNode struct {
+	V    int         `json:"v"`
+	F    *failing    `json:"f,omitempty"`
+	Next *failNode   `json:"next,omitempty"`
+	I    interface{} `json:"i,omitempty"`
+}
+
+type failing struct{}
+
+func (f *failing) MarshalJSON() ([]byte, error) { return nil, fmt.Errorf("refuses") }
+
+func (r *runner) afterFailure(counted bool) {
+	w := r.w
+	const n = 1150
+	for _, through := range []string{"pointer", "interface"} {
+		for _, how := range []string{"cycle", "marshaler-error"} {
+			for _, variant := range variants {
+				nodes := make([]*failNode, n)
+				for i := range nodes {
+					nodes[i] = &failNode{V: i}
+				}
+				link := func(i int, to *failNode) {
+					if through == "pointer" {
+						nodes[i].Next = to
+					} else {
+						nodes[i].I = to
+					}
+				}
+				for i := 0; i+1 < n; i++ {
+					link(i, nodes[i+1])
+				}
+				if how == "cycle" {
+					link(n-1, nodes[0])
+				} else {
+					nodes[n-1].F = &failing{}
+				}
+				c := Case{Type: "after-failure", Cycle: how + "-through-" + through, Variant: variant}
+				var err error
+				w.Count("calls", 3)
+				w.Tick()
+				if rec := wk.Guard(func() { _, err = encodeWith(variant, nodes[0]) }); rec != nil {
+					w.DivFine("after-failure|panic:"+wk.PanicClass(rec)+"|"+c.Cycle, c.Cycle+"|"+variant, counted, fmt.Sprint(rec), c)
+					continue
+				}
+				if err == nil {
+					w.DivFine("after-failure|first-call-succeeds|"+c.Cycle, c.Cycle+"|"+variant, counted, "the failing value was encoded without an error", c)
+					continue
+				}
+				// repair
+				if how == "cycle" {
+					link(n-1, nil)
+				} else {
+					nodes[n-1].F = nil
+				}
+				var want []byte
+				if variant == "indent" || variant == "color-indent" {
+					want, _ = stdjson.MarshalIndent(nodes[0], "", " ")
+				} else {
+					want, _ = stdjson.Marshal(nodes[0])
+				}
+				var got []byte
+				if rec := wk.Guard(func() { got, err = encodeWith(variant, nodes[0]) }); rec != nil {
+					w.DivFine("after-failure|panic:"+wk.PanicClass(rec)+"|"+c.Cycle, c.Cycle+"|"+variant, counted, fmt.Sprint(rec), c)
+					continue
+				}
+				if err != nil || !bytes.Equal(got, want) {
+					w.DivFine("after-failure|repaired-value-not-encoded|"+c.Cycle, c.Cycle+"|"+variant, counted,
+						fmt.Sprintf("after the failed call the repaired acyclic chain of %d nodes gives err=%v, %d bytes (encoding/json: %d bytes)", n, err, len(got), len(want)), c)
+				}
 			}
 		}
 	}
@@ -343,6 +420,8 @@ func Run(job *wk.Job, w *wk.Worker) error {
 		w.Begin(0, func() interface{} { return c })
 		if c.Type == "cycle" {
 			r.cycles(false)
+		} else if c.Type == "after-failure" {
+			r.afterFailure(false)
 		} else {
 			one(c, false, false)
 		}
@@ -385,6 +464,12 @@ func Run(job *wk.Job, w *wk.Worker) error {
 		w.Begin(idx, func() interface{} { return Case{Type: "cycle"} })
 		w.Nontrivial()
 		r.cycles(true)
+	}
+	idx++
+	if w.Mine(idx) {
+		w.Begin(idx, func() interface{} { return Case{Type: "after-failure"} })
+		w.Nontrivial()
+		r.afterFailure(true)
 	}
 	return nil
 }
